@@ -84,6 +84,10 @@ def run_spec(arg):
     E = engine.Engine(max_paths=g.get("max_paths", 600))
     E.reset_hooks.append(stubs.reset_tables)
     E.base = list(lv.cons) + list(g.get("pre", []))
+    # explore only inside the property's domain (reference-side domain conditions, per reference case)
+    doms = [z3.And([z3.BoolVal(True)] + list(rc) + list(it.dom.conds)) for (rc, ro, it) in cases]
+    if doms:
+        E.base.append(z3.simplify(z3.Or(doms)))
 
     def run():
         return bb.loads(text)
